@@ -119,6 +119,7 @@ type HostView struct {
 	SsSAct  bool     `json:"sssact"`
 	Wsc     int      `json:"wsc"`
 	Dur     string   `json:"dur"`
+	DataLag int64    `json:"datalag"`
 }
 
 func (h *MyHost) View() HostView {
@@ -129,6 +130,21 @@ func (h *MyHost) View() HostView {
 	return HostView{Up: h.Up, Net: h.Net, RO: h.RO, Offline: h.Offline, Src: h.Src, IO: h.IO, SQL: h.SQL,
 		IOErr: h.IOErrno, SQLErr: h.SQLErrno, Exec: h.Exec.Sorted(), Recv: h.Recv.Sorted(), Pend: h.Pend.Sorted(),
 		SsM: h.SsM, SsS: h.SsS, SsSAct: h.SsSAct, Wsc: h.Wsc, Dur: dur}
+}
+
+// DataLagOf: bytes the IO thread of r is behind its source's binlog end (ground truth).
+func (w *MyWorld) DataLagOf(r *MyHost) int64 {
+	src := w.Hosts[r.Src]
+	if src == nil {
+		return 0
+	}
+	missing := 0
+	for t := range w.binlogOf(src) {
+		if !r.Exec.Has(t) && !r.Recv.Has(t) {
+			missing++
+		}
+	}
+	return 1000*int64(missing) + r.ExtraDataLag
 }
 
 // SQLCall is what the scheduler hook sees for each statement.
@@ -226,6 +242,7 @@ func (w *MyWorld) AddHost(n string) *MyHost {
 	return h
 }
 
+func (w *MyWorld) TryLock() bool { return w.mu.TryLock() }
 func (w *MyWorld) Lock()   { w.mu.Lock() }
 func (w *MyWorld) Unlock() { w.mu.Unlock() }
 
@@ -403,7 +420,10 @@ func (w *MyWorld) SetNet(host, mode string) {
 	h := w.Hosts[host]
 	h.Net = mode
 	var cs []net.Conn
-	if mode != "ok" {
+	if mode == "dubious" {
+		// only new client connections are refused (1040): replication links are unaffected
+		cs = w.closeConnsLocked(host)
+	} else if mode != "ok" {
 		if mode != "isolated" {
 			cs = w.closeConnsLocked(host)
 		}
@@ -432,7 +452,8 @@ func (w *MyWorld) SetNet(host, mode string) {
 }
 
 func (w *MyWorld) reachableLocked(a, b *MyHost) bool {
-	return a.Up && b.Up && a.Net == "ok" && b.Net == "ok"
+	okNet := func(n string) bool { return n == "ok" || n == "dubious" }
+	return a.Up && b.Up && okNet(a.Net) && okNet(b.Net)
 }
 
 func (w *MyWorld) binlogOf(h *MyHost) TxnSet {
